@@ -5,6 +5,7 @@ use rooc::{Linearizer, RoocParser};
 pub fn explore(src: &str) {
     let p = RoocParser::new(src.to_string());
     match p.format() { Ok(f) => println!("--- format\n{}", f), Err(e) => println!("--- format error: {:?}", e) }
+    match p.type_check(&vec![], &IndexMap::new()) { Ok(()) => println!("--- type_check ok"), Err(e) => println!("--- type_check error: {}", e) }
     let model = match p.parse_and_transform(vec![], &IndexMap::new()) {
         Ok(m) => m,
         Err(e) => { println!("--- transform error: {}", e); return; }
@@ -17,4 +18,12 @@ pub fn explore(src: &str) {
     println!("--- linear\n{}", lin);
     println!("--- lp\n{}", lin.to_lp_format());
     match rooc::auto_solver(&lin) { Ok(s) => println!("--- auto_solver\n{}", s), Err(e) => println!("--- auto_solver error: {:?}", e) }
+    let g = |name: &str, f: &dyn Fn() -> String| {
+        let r = std::panic::catch_unwind(std::panic::AssertUnwindSafe(|| f())).unwrap_or("PANIC".to_string());
+        println!("--- {}: {}", name, r);
+    };
+    g("milp", &|| format!("{:?}", rooc::solve_milp_lp_problem(&lin).map(|s| s.value())));
+    g("clarabel", &|| format!("{:?}", rooc::solve_real_lp_problem_clarabel(&lin).map(|s| s.value())));
+    g("micro_lp", &|| format!("{:?}", rooc::solve_real_lp_problem_micro_lp(&lin).map(|s| s.value())));
+    g("slow_simplex", &|| format!("{:?}", rooc::solve_real_lp_problem_slow_simplex(&lin, 1000).map(|s| s.value())));
 }
